@@ -58,6 +58,18 @@ def corpus(rng, n):
                 sc = "%d.%d" % (rng.randint(0, 10), rng.randint(0, 9))
                 c["rh"].append([ver, rng.choice([sc, "0.0", "x", "", "7.5 ", "nan", "1e1"]) + "/" + s])
                 c["rh"].append([ver, s])
+                # number spellings around the true base score (computed by the reference model; workload only):
+                # two-decimal neighbours and exact binary ties are where rounding idioms differ between interpreters
+                try:
+                    from ..spec import ref2, ref3, ref4
+                    from . import C12
+                    b = float(ref2.scores(m)[0] if ver == "2" else ref3.scores(int(p[7]), m)[0] if ver == "3" else ref4.score_written(m))
+                    heads = [h for _, h in C12.heads_for((b,))] + ["%.2f" % (b - 0.05), "%.2f" % (b + 0.05), "%.3f" % (b + 0.025),
+                                                                  "%.2f" % (b - 0.25), "%.2f" % (b + 0.25)]
+                    for h in rng.sample(heads, 4):
+                        c["rh"].append([ver, h + "/" + s])
+                except Exception:
+                    pass
     for s in V.junk_strings(rng, n // 4):
         if "\ud800" not in s:
             c["construct"].append([rng.choice(T.VERSIONS), s])
